@@ -102,10 +102,15 @@ Section gen_facts.
   Variable e : env.
   Variable conv_common : common.
   Variable out_pkg : N.
-  Notation build_no_lookup := (build_no_lookup e conv_common out_pkg).
-  Notation assign_no_lookup := (assign_no_lookup e conv_common out_pkg).
+  Variable FT : ftable.
+  Variable ext : list N.
+  Variable smeths : list (N * rstr * N).
+  Notation build_no_lookup := (build_no_lookup e conv_common out_pkg FT ext smeths).
+  Notation assign_no_lookup := (assign_no_lookup e conv_common out_pkg FT ext smeths).
+  Notation has_method := (has_method FT ext).
+  Notation overlap_check := (overlap_check e).
 
-  Lemma overlap_needs_structs ctx tab s t : f_Struct e s && f_Struct e t = false -> overlap_check e ctx tab s t = false.
+  Lemma overlap_needs_structs ctx tab s t : f_Struct e s && f_Struct e t = false -> overlap_check ctx tab s t = false.
   Proof. unfold overlap_check. intros ->. reflexivity. Qed.
 
   (* no rule => the documented diagnostics, and nothing is generated *)
@@ -145,54 +150,70 @@ Section gen_facts.
   Qed.
 
   (* unfolding equations (checked by reflexivity against Gen.v) *)
-  Notation build := (build e conv_common out_pkg).
+  Notation build := (build e conv_common out_pkg FT ext smeths).
   Lemma bnl_rule3 f ctx lv s t st :
-    overlap_check e ctx (b_tab st) s t = false ->
+    overlap_check ctx (b_tab st) s t = false ->
     first_rule e (has_method (b_tab st)) (bc_conf ctx) s t = Some 3 ->
     build_no_lookup (S f) ctx lv s t st = (let! p := build f ctx lv s (f_PointerInner e t) in ret (PRef false p)) st.
   Proof. intros O R. cbn [Gen.build_no_lookup]. rewrite O, R. reflexivity. Qed.
   Lemma bnl_rule6 f ctx lv s t st :
-    overlap_check e ctx (b_tab st) s t = false ->
+    b_ctor st = false ->
+    overlap_check ctx (b_tab st) s t = false ->
     first_rule e (has_method (b_tab st)) (bc_conf ctx) s t = Some 6 ->
     build_no_lookup (S f) ctx lv s t st = (let! p := build f ctx lv s (f_PointerInner e t) in ret (PRef (aliasing lv p) p)) st.
-  Proof. intros O R. cbn [Gen.build_no_lookup]. rewrite O, R. reflexivity. Qed.
+  Proof. intros C O R. cbn [Gen.build_no_lookup]. rewrite O, R, C. reflexivity. Qed.
+  Notation target_var := (target_var e FT).
+  Lemma bnl_rule5_raw f ctx lv s t st :
+    b_ctor st = false ->
+    overlap_check ctx (b_tab st) s t = false ->
+    first_rule e (has_method (b_tab st)) (bc_conf ctx) s t = Some 5 ->
+    build_no_lookup (S f) ctx lv s t st =
+    (let! tv := target_var ctx s t in let! a := assign_no_lookup f ctx lv false s t in ret (of_assign tv t a)) st.
+  Proof. intros C O R. cbn [Gen.build_no_lookup]. rewrite O, R, C. reflexivity. Qed.
   Lemma bnl_rule5 f ctx lv s t st :
-    overlap_check e ctx (b_tab st) s t = false ->
+    b_ctor st = false ->
+    overlap_check ctx (b_tab st) s t = false ->
     first_rule e (has_method (b_tab st)) (bc_conf ctx) s t = Some 5 ->
     build_no_lookup (S f) ctx lv s t st = (let! _ := note_ty t in let! a := assign_no_lookup f ctx lv false s t in ret (POfAssign t a)) st.
-  Proof. intros O R. cbn [Gen.build_no_lookup]. rewrite O, R. reflexivity. Qed.
+  Proof.
+    intros C O R. rewrite (bnl_rule5_raw _ _ _ _ _ _ C O R).
+    unfold mbind at 1. unfold Gen.target_var. rewrite C. cbn [negb orb]. unfold mbind, ret, note_ty.
+    destruct (assign_no_lookup f ctx lv false s t _) as [[a st']| | |]; reflexivity.
+  Qed.
   Lemma anl_rule5 f ctx lv u s t st :
-    overlap_check e ctx (b_tab st) s t = false ->
+    overlap_check ctx (b_tab st) s t = false ->
     first_rule e (has_method (b_tab st)) (bc_conf ctx) s t = Some 5 ->
     assign_no_lookup (S f) ctx lv u s t st = (let! p := build f ctx LV_DEREF (f_PointerInner e s) t in ret (ASrcPtr p)) st.
   Proof. intros O R. cbn [Gen.assign_no_lookup]. rewrite O, R. reflexivity. Qed.
 
   (* T -> *U: the plan is "pointer to the conversion of the value" *)
   Lemma gen_value_to_ptr f ctx lv s t st p st' :
+    b_ctor st = false ->
     cc_UseUnderlyingTypeMethods (bc_conf ctx) = false -> (forall id, s <> TNamed id) -> f_Pointer e s = false ->
     build_no_lookup (S f) ctx lv s (TPtr t) st = GOk (p, st') ->
     exists al q, p = PRef al q /\ exists st0, build f ctx lv s t st = GOk (q, st0).
   Proof.
-    intros U NN NP H.
-    assert (O : overlap_check e ctx (b_tab st) s (TPtr t) = false) by (apply overlap_needs_structs; cbn; apply andb_false_r).
+    intros C U NN NP H.
+    assert (O : overlap_check ctx (b_tab st) s (TPtr t) = false) by (apply overlap_needs_structs; cbn; apply andb_false_r).
     destruct (value_to_ptr_rule e (has_method (b_tab st)) (bc_conf ctx) s t U NN NP) as [r [R [-> | ->]]].
     - rewrite (bnl_rule3 _ _ _ _ _ _ O R) in H. unfold mbind, ret in H. cbn [f_PointerInner under] in H.
       destruct (build f ctx lv s t st) as [[q st1]| | |]; try discriminate. inversion H; subst. eauto.
-    - rewrite (bnl_rule6 _ _ _ _ _ _ O R) in H. unfold mbind, ret in H. cbn [f_PointerInner under] in H.
+    - rewrite (bnl_rule6 _ _ _ _ _ _ C O R) in H. unfold mbind, ret in H. cbn [f_PointerInner under] in H.
       destruct (build f ctx lv s t st) as [[q st1]| | |]; try discriminate. inversion H; subst. eauto.
   Qed.
 
   (* *T -> U with the flag: zero value of U for nil, else the conversion of the pointee *)
   Lemma gen_ptr_to_value_with_flag f ctx lv s t st p st' :
+    b_ctor st = false ->
     cc_UseZeroValueOnPointerInconsistency (bc_conf ctx) = true -> cc_UseUnderlyingTypeMethods (bc_conf ctx) = false ->
     (forall id, t <> TNamed id) -> f_Pointer e t = false ->
     build_no_lookup (S (S f)) ctx lv (TPtr s) t st = GOk (p, st') ->
     exists q, p = POfAssign t (ASrcPtr q) /\ exists st0 st1, b_tab st0 = b_tab st /\ build f ctx LV_DEREF s t st0 = GOk (q, st1).
   Proof.
-    intros F U NN NP H.
-    assert (O : overlap_check e ctx (b_tab st) (TPtr s) t = false) by (apply overlap_needs_structs; reflexivity).
+    intros C F U NN NP H.
+    assert (O : overlap_check ctx (b_tab st) (TPtr s) t = false) by (apply overlap_needs_structs; reflexivity).
     pose proof (ptr_to_value_with_flag e (has_method (b_tab st)) (bc_conf ctx) s t F U NN NP) as R.
-    rewrite (bnl_rule5 _ _ _ _ _ _ O R) in H. unfold mbind, ret, note_ty in H.
+    rewrite (bnl_rule5 _ _ _ _ _ _ C O R) in H. unfold mbind, ret, note_ty in H.
     match type of H with context [assign_no_lookup (S f) ctx lv false (TPtr s) t ?X] => set (st0 := X) in * end.
     assert (T0 : b_tab st0 = b_tab st) by reflexivity.
     rewrite (anl_rule5 _ _ _ _ _ _ st0) in H by (rewrite T0; assumption). unfold mbind, ret in H. cbn [f_PointerInner under] in H.
